@@ -452,7 +452,33 @@ func genForCodec(r *core.Rand, codecCode uint64) core.Val {
 	case 0x51:
 		cfg.Links = false
 	}
-	return core.GenVal(r, cfg, 0)
+	for {
+		v := core.GenVal(r, cfg, 0)
+		if codecCode == 0x0129 && r.Chance(1, 12) {
+			// maps that BEGIN like the reserved link / bytes forms and then carry more (these are in the domain)
+			str := core.Str([]string{"aGVsbG8", "bafkqaaik", "x", ""}[r.Intn(4)])
+			more := core.KV{K: []byte([]string{"mime", "z", "bytes2", "0"}[r.Intn(4)]), V: core.GenVal(r, cfg, 2)}
+			switch r.Intn(4) {
+			case 0:
+				v = core.Map(core.KV{K: []byte("/"), V: core.Map(core.KV{K: []byte("bytes"), V: str}, more)})
+			case 1:
+				v = core.Map(core.KV{K: []byte("/"), V: core.Map(core.KV{K: []byte("bytes"), V: str})}, more)
+			case 2:
+				v = core.Map(core.KV{K: []byte("/"), V: str}, more)
+			default:
+				v = core.Map(core.KV{K: []byte("/"), V: core.Map(core.KV{K: []byte("bytes"), V: str}, more, core.KV{K: []byte("zz"), V: core.Int(1)})}, core.KV{K: []byte("k"), V: v})
+			}
+			if r.Bool() {
+				v = core.List(v, core.Int(1))
+			}
+		}
+		if codecCode == 0x0129 && hasReservedShape(v) {
+			// {"/": "text"} and {"/": {"bytes": "text"}} are not in DAG-JSON's domain (they ARE its link and bytes forms):
+			// the encoder writes them as they are and they read back as something else (C04's rule excludes them)
+			continue
+		}
+		return v
+	}
 }
 
 func runC06(c *core.Ctx) error {
@@ -494,6 +520,7 @@ func runC06(c *core.Ctx) error {
 		return err
 	}
 	c06Large(c, reg)
+	c06Extended(c, reg)
 	return c06Store(c, reg)
 }
 
@@ -545,6 +572,63 @@ func c06Large(c *core.Ctx, reg multicodec.Registry) {
 					} else if cls := classifyLoadErr(err); cls != "hashMismatch" {
 						c.Fail("C06/mismatch-not-reported", core.Replay{Kind: "oracle", Case: caseID, Impl: cls + " " + fmt.Sprint(err), Expected: "hashMismatch",
 							Detail: "the stream does not hash to the link; a hash mismatch is reported before any decoding error, however much of the stream the codec left unread"})
+					}
+				}
+			}
+		}
+	}
+}
+
+// c06Extended: intact blocks whose length is exactly a power of two (where a size cap or a buffer boundary would sit),
+// one below and one above, extended in storage by one more byte (a letter, a space, a newline): the stream no longer
+// hashes to the link and every loading function says so.
+func c06Extended(c *core.Ctx, reg multicodec.Registry) {
+	exps := []uint{12, 16, 20, 24}
+	if c.Thorough() {
+		exps = []uint{10, 12, 15, 16, 17, 20, 22, 23, 24, 25}
+	}
+	for _, e := range exps {
+		for _, delta := range []int{-1, 0, 1} {
+			size := 1<<e + delta
+			for _, codecCode := range []uint64{0x71, 0x0129} {
+				var block []byte
+				if codecCode == 0x71 {
+					n := size - 5
+					block = append([]byte{0x7a, byte(n >> 24), byte(n >> 16), byte(n >> 8), byte(n)}, bytes.Repeat([]byte{0x61}, n)...)
+				} else {
+					block = append(append([]byte{'"'}, bytes.Repeat([]byte{0x61}, size-2)...), '"')
+				}
+				sum, _ := mh.Sum(block, mh.SHA2_256, -1)
+				lnk := cidlink.Link{Cid: cid.NewCidV1(codecCode, sum)}
+				for _, ext := range []byte{'x', ' ', '\n'} {
+					stored := append(append([]byte{}, block...), ext)
+					lsys := cidlink.LinkSystemUsingMulticodecRegistry(reg)
+					lsys.StorageReadOpener = func(linking.LinkContext, datamodel.Link) (io.Reader, error) { return bytes.NewReader(stored), nil }
+					for _, fn := range []string{"Load", "Fill", "LoadRaw", "LoadPlusRaw"} {
+						var err error
+						_, panicked, pv := core.Catch(func() error {
+							switch fn {
+							case "Load":
+								_, err = lsys.Load(linking.LinkContext{}, lnk, basicnode.Prototype.Any)
+							case "Fill":
+								err = lsys.Fill(linking.LinkContext{}, lnk, basicnode.Prototype.Any.NewBuilder())
+							case "LoadRaw":
+								_, err = lsys.LoadRaw(linking.LinkContext{}, lnk)
+							default:
+								_, _, err = lsys.LoadPlusRaw(linking.LinkContext{}, lnk, basicnode.Prototype.Any)
+							}
+							return nil
+						})
+						caseID := fmt.Sprintf("c06.extended %s codec=0x%x size=%d ext=%q", fn, codecCode, size, string(ext))
+						c.Count(caseID, true)
+						c.Dist("extended-block:" + fn)
+						if panicked {
+							c.Fail("C06/panic", core.Replay{Kind: "oracle", Case: caseID, Impl: fmt.Sprint(pv)})
+						} else if err == nil {
+							c.Fail("C06/ok-without-hash-match", core.Replay{Kind: "oracle", Case: caseID, Impl: "loaded", Expected: "hash mismatch", Detail: "the stored stream is the block plus one byte"})
+						} else if cls := classifyLoadErr(err); cls != "hashMismatch" {
+							c.Fail("C06/mismatch-not-reported", core.Replay{Kind: "oracle", Case: caseID, Impl: cls + " " + truncateStr(fmt.Sprint(err), 200), Expected: "hashMismatch"})
+						}
 					}
 				}
 			}
